@@ -96,6 +96,9 @@ func refEnums(l *prog.Loaded) map[*types.Named]*refEnum {
 			if !ok {
 				continue
 			}
+			if named.Obj().Pkg() != p.Types {
+				continue // the statement counts the constants declared in the type's own package
+			}
 			si, ok := byPos[c.Pos()]
 			if !ok {
 				panic("reference: const spec not found for " + name)
